@@ -25,8 +25,8 @@ ENGINES = [
 BIG_LIB = ['bintree.c', 'rbtree.c', 'map.c', 'dlist.c', 'slist.c', 'vector.c', 'string.c', 'array.c', 'memory.c', 'heap.c', 'common.c']
 # the large enumerated cases: public API only, except in the builds for C02 (colours, links) and C19 (clean bits; hash.c unity-#included)
 BIG_JOB = {'world': 'big', 'src': 'worlds/big_world.c', 'lib': BIG_LIB + ['hash.c'], 'unity': True, 'flavours': BOTH}
-BIG_JOB_C02 = {'world': 'big', 'src': 'worlds/big_world.c', 'lib': BIG_LIB + ['hash.c'], 'unity': True, 'wflags': ['-DBIG_RB'], 'flavours': BOTH}
-BIG_JOB_C19 = {'world': 'big', 'src': 'worlds/big_world.c', 'lib': BIG_LIB, 'unity': True, 'wflags': ['-DBIG_HASHPRIV'], 'flavours': BOTH}
+BIG_JOB_C02 = {'world': 'big', 'src': 'worlds/big_world.c', 'lib': BIG_LIB + ['hash.c'], 'unity': True, 'wflags': ['-DBIG_RB'], 'flavours': BOTH, 'private': True, 'nopriv_wflags': []}
+BIG_JOB_C19 = {'world': 'big', 'src': 'worlds/big_world.c', 'lib': BIG_LIB, 'unity': True, 'wflags': ['-DBIG_HASHPRIV'], 'flavours': BOTH, 'private': True, 'nopriv_wflags': []}
 
 PROPS = {
     'C12': {
@@ -66,7 +66,7 @@ PROPS = {
         'claim': 'Exhaustive within scope: every red-black tree shape and colouring reachable with up to 11 (thorough 13) elements by any insert/erase order, red-black rules and the height bound evaluated in every state. Includes swap with a tree object of another element layout followed by insert/erase through the receiving object, swap of a tree with itself followed by insert/erase, and trees of up to 5000 nodes from an enumerated family of insertion/erase orders.',
         'note': E1_NOTE,
         'technique': 'explicit-state BFS to closure on the real code with a structural invariant in every state',
-        'jobs': [{'world': 'tree', 'src': 'worlds/tree_world.c', 'lib': ['bintree.c', 'rbtree.c'], 'flavours': RELDBG_ALWAYS}, BIG_JOB_C02],
+        'jobs': [{'world': 'tree', 'src': 'worlds/tree_world.c', 'lib': ['bintree.c', 'rbtree.c'], 'flavours': RELDBG_ALWAYS, 'private': True, 'nopriv_wflags': ['-DTREE_PRIVATE=0']}, BIG_JOB_C02],
         'rule': 'same closure search as C01 (cstl_rbtree configurations carry the oracle): in every reachable state root black, no red-red, equal black height, '
                 'parent links, cstl_rbtree_height max <= 2*log2(n+1); non-trivial = at least 3 elements held',
         'assumptions': ASSUME_E1,
@@ -76,8 +76,8 @@ PROPS = {
         'claim': 'Exhaustive within scope: every heap shape reachable by push/pop/clear/swap over pools of 7-8 (thorough 8-12) elements incl. ties and sign-only/reversed comparators; max-at-root, exact removal and level-order completeness in every state. The second heap object is of another kind (comparator, private pointer, node offset); swap-pair pushes and pops through the receiving object; CSTL_HEAP_INITIALIZER is compared field by field with cstl_heap_init and used on odd configurations; plus every heap size up to 2^16+3 (thorough 2^17+3) and cstl_fls against a reference.',
         'note': E1_NOTE,
         'technique': 'explicit-state BFS to closure on the real code vs multiset model',
-        'jobs': [{'world': 'heap', 'src': 'worlds/heap_world.c', 'lib': ['heap.c', 'bintree.c', 'common.c'], 'flavours': RELDBG_ALWAYS},
-                 {'world': 'heapsize', 'src': 'worlds/heapsize_world.c', 'lib': ['heap.c', 'bintree.c', 'common.c'], 'flavours': BOTH}],
+        'jobs': [{'world': 'heap', 'src': 'worlds/heap_world.c', 'lib': ['heap.c', 'bintree.c', 'common.c'], 'flavours': RELDBG_ALWAYS, 'private': True},
+                 {'world': 'heapsize', 'src': 'worlds/heapsize_world.c', 'lib': ['heap.c', 'bintree.c', 'common.c'], 'flavours': BOTH, 'private': True}],
         'rule': 'breadth-first search to closure over push / pop (also on the empty heap) / clear / swap for pools with distinct, paired, all-equal and heavy priorities and '
                 'difference, sign-only and reversed comparators; in every state get must be a held maximum and level-order slots 1..size must be exactly the occupied ones; '
                 'non-trivial = at least 3 elements held; in addition (world heapsize) an enumerated family of heap SIZES - every size 1..520 by fill/drain and every size up to 2^16+3 along one long fill with a pop and re-push at each size, five priority patterns, and cstl_fls against a reference - because the slot arithmetic depends on the size alone and a closure cannot reach sizes like 256 or 65536',
@@ -100,7 +100,7 @@ PROPS = {
         'note': E1_NOTE,
         'technique': 'explicit-state BFS to closure; clear transition with ASan-poisoning callback in every reachable state',
         'jobs': [{'world': 'tree', 'src': 'worlds/tree_world.c', 'lib': ['bintree.c', 'rbtree.c'], 'wflags': ['-DTREE_PRIVATE=0'], 'flavours': BOTH},
-                 {'world': 'heap', 'src': 'worlds/heap_world.c', 'lib': ['heap.c', 'bintree.c', 'common.c'], 'flavours': BOTH},
+                 {'world': 'heap', 'src': 'worlds/heap_world.c', 'lib': ['heap.c', 'bintree.c', 'common.c'], 'flavours': BOTH, 'private': True},
                  {'world': 'dlist', 'src': 'worlds/dlist_world.c', 'lib': ['dlist.c'], 'flavours': BOTH},
                  {'world': 'slist', 'src': 'worlds/slist_world.c', 'lib': ['slist.c'], 'flavours': BOTH},
                  {'world': 'map', 'src': 'worlds/map_world.c', 'lib': ['map.c', 'rbtree.c', 'bintree.c'], 'flavours': BOTH},
@@ -115,7 +115,7 @@ PROPS = {
         'claim': 'Exhaustive within scope: closure over insert / erase (members and non-members) / find (no visitor, rejecting visitor, visitor accepting the j-th offer) / resize (every count x function, also while pending, also 0) / rehash / shrink_to_fit / swap / foreach / clear over 3-5 (thorough 4-6) elements with colliding and repeated keys and bucket counts up to 8; every find result, offer sequence, size and erase effect compared with a set model in every reachable table state (most of them mid-rehash). Visit functions signal acceptance with values of both signs and verify their private pointer; the table-wide clean bit (which survives clear) is part of the state; odd configurations are built with CSTL_HASH_INITIALIZER; plus enumerated large tables (up to 16384 buckets) driven through complete rehashes.',
         'note': E1_NOTE,
         'technique': 'explicit-state BFS to closure on the real code vs set model; key = public struct (geometry, pending geometry, sweep index, relative dirty flags, chains)',
-        'jobs': [{'world': 'hash', 'src': 'worlds/hash_world.c', 'lib': [], 'unity': True, 'flavours': BOTH}, BIG_JOB],
+        'jobs': [{'world': 'hash', 'src': 'worlds/hash_world.c', 'lib': [], 'unity': True, 'flavours': BOTH, 'private': True}, BIG_JOB],
         'rule': 'breadth-first search to closure; a state is non-trivial when an incremental rehash is pending in it',
         'assumptions': ASSUME_E1,
     },
@@ -124,7 +124,7 @@ PROPS = {
         'claim': 'Exhaustive within scope: in every reachable table state of the C03 search (all stages of grow and shrink rehashes) foreach_const (also with early stop at every visit) is evaluated, and foreach, foreach with a visitor that erases+poisons the visited element, clear(callback) and clear(NULL) are applied as transitions; after clear the object must serialise like a fresh one, so resize/insert/find after clear are part of the closure.',
         'note': E1_NOTE,
         'technique': 'explicit-state BFS to closure on the real code; enumeration entry points crossed with every reachable table state',
-        'jobs': [{'world': 'hash', 'src': 'worlds/hash_world.c', 'lib': [], 'unity': True, 'flavours': BOTH}, BIG_JOB],
+        'jobs': [{'world': 'hash', 'src': 'worlds/hash_world.c', 'lib': [], 'unity': True, 'flavours': BOTH, 'private': True}, BIG_JOB],
         'rule': 'breadth-first search to closure; a state is non-trivial when an incremental rehash is pending in it',
         'assumptions': ASSUME_E1,
     },
@@ -133,7 +133,7 @@ PROPS = {
         'claim': 'Exhaustive within scope: on every transition of the C03 search the instrumented hash functions log (key, table size, function); load == size/n right after every resize request (also while pending, back to the previous geometry, repeated); single consultation with the requested geometry whenever no rehash is pending; while pending every keyed operation cleans between 1 and 3 dirty buckets (read from the public struct before/after), relocates nodes out of at most 3 buckets, and the dirty count strictly falls - by induction over the closure a rehash finishes within bucket-count keyed operations. On enumerated large tables (up to 16384 buckets) every lookup of a pending rehash must clean at most 3 buckets (at least 1 unless it completes the rehash).',
         'note': E1_NOTE + ' Calls to the built-in cstl_hash_mul cannot be logged (tables that never named a function are explored but not call-counted).',
         'technique': 'explicit-state BFS to closure on the real code with per-transition work accounting (hash-call log + dirty-bucket deltas)',
-        'jobs': [{'world': 'hash', 'src': 'worlds/hash_world.c', 'lib': [], 'unity': True, 'flavours': BOTH}, BIG_JOB_C19],
+        'jobs': [{'world': 'hash', 'src': 'worlds/hash_world.c', 'lib': [], 'unity': True, 'flavours': BOTH, 'private': True}, BIG_JOB_C19],
         'rule': 'breadth-first search to closure; a state is non-trivial when an incremental rehash is pending in it',
         'assumptions': ASSUME_E1,
     },
@@ -184,7 +184,7 @@ PROPS = {
                   'link': ['-Wl,--wrap=malloc,--wrap=calloc,--wrap=realloc,--wrap=free,--wrap=abort,--wrap=sched_yield'], 'flavours': RELDBG_ALWAYS}],
         'rule': 'every scenario explored to exhaustion; states = distinct scheduler states (visited set), transitions = executed steps out of new states; a state is counted non-trivial always (every state is a multi-thread scheduling choice point)',
         'assumptions': ['sequential consistency (SC interleavings only)', 'at most 4 threads, programs of at most 3 operations', 'scheduling points at every instrumented access to library-allocated memory; accesses to a thread\'s own pointer objects are thread-private'],
-        'deadline': {'quick': 240, 'thorough': 3000},
+        'deadline': {'quick': 420, 'thorough': 3000},
     },
     'C16': {
         'level': 'fault_enumeration',
@@ -228,6 +228,7 @@ PROPS = {
         'assumptions': ['gcc 12 and GNU ld as the client toolchain', 'the project Makefile\'s build target defines what "the built library" is'],
     },
     'C20': {
+        'deadline': {'quick': 420, 'thorough': 3000},
         'level': 'exploration',
         'engine': 'confx',
         'claim': 'Complete enumeration of a finite program family: 42 (entry point, argument position) pairs - every function of memory.h and array.h that reads, transfers or releases a guarded / unique / shared / weak pointer or an array object - x every object state (NULL / non-NULL; empty / owning / co-owned; empty / weak to live / weak to dead; empty / whole / slice) x copy kind (struct assignment, memcpy, relocation with the original storage scrubbed) x, for two-object calls, every state of the OTHER argument (empty; owning / weak to live memory / whole array; co-owned / weak to dead memory / slice; or the original the copy was made from): the call on the stray copy must end in abort() (not return, not an assertion, not a sanitizer report), and the same call on the original object must still work. The table is cross-checked against the declarations gcc -aux-info finds in the two headers; declared entry points missing from the table are reported in the evidence. The converse (properly moved objects never abort) is decided by the same check: every initialising call (the *_init functions, guarded set, guarded copy as destination) on zero-filled, 0xA5-filled, 0xFF-filled storage and on the bytes of a live object, followed by ordinary use, must not abort; the C05 and C14 closure searches (ptr and array worlds) run with their no-unexpected-abort oracle attributed to C20, every interleaving of the C06 scheduler scenarios runs with abort() inside the library as the only oracle, and 65535 to 70000 simultaneous owners / weak references / array views of one allocation are created and released with the library functions only.',
